@@ -108,6 +108,31 @@ type Input struct {
 	Query bool          `json:"query"`
 	Sched []int         `json:"sched"` // writer calls, reader calls, writer calls, ...
 	Why   string        `json:"why"`
+	// Backup: after the first burst of writer calls a leftover merge backup directory
+	// `<day>_!.gpdb-merge-backup-1` is placed next to every day directory that exists at that moment (it
+	// sorts right before the renamed day: the reader's recovery has to search past it)
+	Backup bool `json:"backup,omitempty"`
+}
+
+// makeBackups creates the leftover backup directories
+func makeBackups(root string) error {
+	months, _ := filepath.Glob(filepath.Join(root, "*", "*", "*"))
+	for _, m := range months {
+		ents, err := os.ReadDir(m)
+		if err != nil {
+			return err
+		}
+		for _, e := range ents {
+			if !e.IsDir() || gpfile.IsMergeBackupDir(e.Name()) {
+				continue
+			}
+			ts := strings.SplitN(e.Name(), "_", 2)[0]
+			if err := os.MkdirAll(filepath.Join(m, ts+"_!"+gpfile.MergeBackupInfix+"1"), 0o755); err != nil {
+				return err
+			}
+		}
+	}
+	return nil
 }
 
 // ---------------------------------------------------------------- reader child
@@ -664,7 +689,7 @@ func runOnce(in Input, tag string) (*outcome, error) {
 	mu.Unlock()
 	defer r.kill()
 	wturn := true
-	for _, n := range in.Sched {
+	for si, n := range in.Sched {
 		p := r
 		if wturn {
 			p = w
@@ -672,6 +697,11 @@ func runOnce(in Input, tag string) (*outcome, error) {
 		for i := 0; i < n && !p.exited; i++ {
 			if err := p.step(); err != nil {
 				return nil, err
+			}
+		}
+		if in.Backup && si == 0 {
+			if err := makeBackups(root); err != nil {
+				return nil, infra("cannot create the leftover backup directories: %v", err)
 			}
 		}
 		wturn = !wturn
@@ -990,6 +1020,16 @@ func buildPlan(seed uint64, n int, tier string, search bool) []Input {
 			}
 		}
 	}
+	// (1a) the same rename-before-open schedules with a leftover merge backup next to the day (histories 0 and 2):
+	// the recovery's prefix search has to step over the backup
+	var mustB []Input
+	for _, in := range p {
+		if in.Why == "rename-before-open" && (hashOf(in.Hist) == hashOf(hists[0]) || hashOf(in.Hist) == hashOf(hists[2])) {
+			b := in
+			b.Backup, b.Why = true, "rename-with-backup"
+			mustB = append(mustB, b)
+		}
+	}
 	// (1b) a complete write-out between two of the reader's column opens (stale column handles); kept in full
 	// for the own history, sampled for the others
 	var must []Input
@@ -1041,9 +1081,12 @@ func buildPlan(seed uint64, n int, tier string, search bool) []Input {
 	if len(must) > n {
 		must = must[:n]
 	}
-	if len(p) > n-len(must) {
+	if len(mustB) > n-len(must) {
+		mustB = mustB[:n-len(must)]
+	}
+	if len(p) > n-len(must)-len(mustB) {
 		// keep a mixture of the rest: take evenly
-		m := n - len(must)
+		m := n - len(must) - len(mustB)
 		q := make([]Input, 0, m)
 		for i := 0; i < m; i++ {
 			q = append(q, p[i*len(p)/m])
@@ -1051,6 +1094,7 @@ func buildPlan(seed uint64, n int, tier string, search bool) []Input {
 		p = q
 	}
 	p = append(p, must...)
+	p = append(p, mustB...)
 	// identical inputs would share a scratch directory: keep the first of each
 	seen := map[string]bool{}
 	uniq := p[:0]
